@@ -60,6 +60,58 @@ func c15ShortcutRecursion(r *mon.Rng) *model.Schema {
 	return s
 }
 
+// c15Borderline: shapes Check refuses on the pinned tree for reasons of type resolution (a key
+// type that names itself in its union, an empty container whose or rule admits no container, an
+// empty container whose or rule names a user type next to a built-in). Whatever Check decides
+// about them is C08's / C09's subject; HERE only the consequence counts: when Check accepts one,
+// its Example must be well-formed and must validate.
+func c15Borderline(r *mon.Rng) *model.Schema {
+	person := &model.TypeDef{Name: "@person", Root: model.Obj(model.P("name", model.Str("Tom")), model.P("age", model.Int("3")))}
+	pet := &model.TypeDef{Name: "@pet", Root: model.Obj(model.P("id", model.Int("1")))}
+	list := &model.TypeDef{Name: "@list", Root: model.Arr(model.Int("1")).With(model.RInt("minItems", 1))}
+	word := &model.TypeDef{Name: "@word", Root: model.Str("abc").With(model.RStr("regex", "^[a-z]+$"))}
+	empty := func() *model.Node {
+		if r.Bool() {
+			return model.Obj()
+		}
+		return model.Arr()
+	}
+	switch r.Intn(4) {
+	case 0:
+		// key type naming itself before (or after) a real string alternative
+		refs := []string{"@key", "@word"}
+		if r.Bool() {
+			refs = []string{"@word", "@key"}
+		}
+		if r.Chance(1, 3) {
+			refs = []string{"@key2", "@word"}
+		}
+		s := &model.Schema{Types: []*model.TypeDef{word, {Name: "@key", Root: model.Ref(refs...)}, {Name: "@key2", Root: model.Ref("@key", "@word")}}}
+		s.Root = model.Obj(model.P("total", model.Int("2")), model.PShort("@key", model.Int("1")))
+		return s
+	case 1:
+		// empty container with an or of scalar built-ins, checked after a type reference
+		e := empty().With(model.ROr(model.OrSet(model.RStr("type", "string")), model.OrSet(model.RStr("type", "integer"))))
+		s := &model.Schema{Types: []*model.TypeDef{person}}
+		s.Root = model.Obj(model.P("owner", model.Ref("@person")), model.P("extra", e))
+		if r.Bool() {
+			s.Root = model.Obj(model.P("owner", model.Ref("@person", "@person")), model.P("list", model.Arr(model.Ref("@person"))), model.P("extra", e))
+		}
+		return s
+	case 2:
+		// empty container whose or names a user type that does not accept it, a built-in last
+		e := model.Obj().With(model.ROr(model.OrName("@pet"), model.OrName("string")))
+		if r.Bool() {
+			e = model.Arr().With(model.ROr(model.OrSet(model.RStr("type", "@list")), model.OrSet(model.RStr("type", "string"))))
+		}
+		return &model.Schema{Types: []*model.TypeDef{pet, list}, Root: model.Obj(model.P("id", e))}
+	}
+	// a union declaring {type: "mixed"} itself
+	s := &model.Schema{Types: []*model.TypeDef{pet, word}}
+	s.Root = model.Obj(model.P("x", model.Ref("@pet", "@word").With(model.RStr("type", "mixed"))))
+	return s
+}
+
 func c15Recursive(r *mon.Rng) *model.Schema {
 	s := &model.Schema{}
 	mk := func(self, target string, pos int, form int) *model.Node {
@@ -222,6 +274,9 @@ func c15Run(c *mon.Ctx, unit int) {
 			s, class = gen.Graph(r, 6), "type graph"
 			if k%12 == 6 {
 				s, class = c15ShortcutRecursion(r), "type graph (recursion below a key shortcut)"
+			}
+			if k%12 == 0 && r.Bool() {
+				s, class = c15Borderline(r), "borderline shapes (judged only when Check accepts them)"
 			}
 		case 1:
 			s, class = c15Recursive(r), "optional recursion"
